@@ -35,6 +35,7 @@ type State struct {
 	Model    map[string]*big.Int // a model of PC (variables missing from it are 0), or nil
 	AuxVars  []*Term             // internal variables (not harness inputs) created on this path
 	Bounds   map[int]ival        // unsigned intervals of bit-vector variables implied by PC
+	Pools    map[int][]Value     // sync.Pool model: objects Put and not yet taken, per pool object
 }
 
 type MeterRec struct {
@@ -79,6 +80,12 @@ func (s *State) Clone() *State {
 	if s.CurPanic != nil {
 		cp := *s.CurPanic
 		n.CurPanic = &cp
+	}
+	if len(s.Pools) > 0 {
+		n.Pools = make(map[int][]Value, len(s.Pools))
+		for k, v := range s.Pools {
+			n.Pools[k] = append([]Value(nil), v...)
+		}
 	}
 	if len(s.Bounds) > 0 {
 		n.Bounds = make(map[int]ival, len(s.Bounds))
